@@ -41,6 +41,13 @@ def run(ctx):
     ctx.do(rule_bounds_are_legal)
     ctx.do(rule_category_tables)
     ctx.do(rule_conditional_defaults)
+    # every input property is written again, nested ones included: the encoder clauses of C01
+    from . import C01 as _C01
+    ctx.do_as(_C01.rule_encoders, {"C01.encoder-siblings": "C03.encoder-siblings"})
+    # a co-constraint that is stricter than the specification, or reads an absent property, refuses a valid object
+    from . import C02 as _C02
+    ctx.do_as(_C02.rule_constraints, {"C02.constraints": "C03.constraints"})
+    ctx.do(rule_no_constraint_beyond_the_table)
     from .regexlang import rule_regex_languages
     ctx.do(rule_regex_languages, "C03.regex-language", ["complete"])
     run.floor("C03.regex-language", 5)
@@ -567,3 +574,27 @@ def rule_absent_values(ctx):
                       found=short(node.test))
     if m < 8:
         raise AnalysisError("fewer than 8 named-parameter hand-overs found in constructors (%d)" % m)
+
+
+def rule_no_constraint_beyond_the_table(ctx):
+    """C02 only notes a raising guard that the specification table (spec/constraints.json) does not have -- stricter is fine
+    there.  Here it is the defect: whatever such a guard refuses is valid per the table."""
+    from .C02 import constraint_methods, fact_satisfied, summarize
+    run = ctx.run
+    prog = ctx.prog
+    R = "C03.constraints"
+    oracle = ctx.spec("constraints.json")
+    n = 0
+    for k, fi in sorted(constraint_methods(prog).items()):
+        facts, _ = summarize(fi.node)
+        for cf in sorted(facts):
+            if "=> raise" not in cf:
+                continue
+            n += 1
+            covered = any(fact_satisfied(of, {cf}) for of in oracle.get(k, []))
+            run.check(covered, R, key(fi.module.relpath, fi.qualname, "beyond-the-table:" + cf),
+                      "a raising co-constraint that the specification table does not have: every object it refuses is valid per the "
+                      "table", file=fi.module.relpath, line=fi.node.lineno, function=fi.qualname,
+                      expected="one of %s" % [of for of in oracle.get(k, []) if "=> raise" in of], found=cf)
+    if n < 20:
+        raise AnalysisError("fewer than 20 raising co-constraints summarised (%d)" % n)
